@@ -202,7 +202,12 @@ def _run_hyp(mod: Any, job: Job, col: Collector, seed: int, shard: int, nshards:
         @st.composite
         def strat_fn(draw: Any) -> Any:
             rnd = draw(st.randoms(use_true_random=False))
-            return build(rnd)
+            try:
+                return build(rnd)
+            except Exception:  # a generator bug must surface as a harness error, not as a Hypothesis failure
+                if len(col.errors) < 3:
+                    col.errors.append({'where': 'build', 'job': job.name, 'trace': traceback.format_exc()})
+                return None
         strat = strat_fn()
 
     @hypothesis.seed(derive_seed(seed, mod.ID, job.name, shard))
@@ -211,6 +216,8 @@ def _run_hyp(mod: Any, job: Job, col: Collector, seed: int, shard: int, nshards:
               report_multiple_bugs=False)
     @given(strat)
     def test(case: Any) -> None:
+        if case is None:
+            return
         if time.time() > t_end:
             col.budget_exhausted = True
             col.skipped_budget += 1
